@@ -642,7 +642,7 @@ func nearToken(r *hlib.Rng, part int, t string) string {
 
 type genOpts struct {
 	maxHosts, maxTokens, maxDCs, maxRacks int
-	malformed                            bool
+	malformed                             bool
 }
 
 func genScenario(r *hlib.Rng, g genOpts) *scenario {
@@ -990,6 +990,168 @@ func policyScenario(o *hlib.Out, s *scenario) {
 	}
 }
 
+// policyStale is a fixed (seed-independent) multi-step stream through the real policy: replicas are computed once for a
+// keyspace; then the keyspace becomes unusable (metadata lookup fails, or its strategy is one getStrategy answers nil for) and
+// the ring changes (RemoveHost / AddHost / KeyspaceChanged); afterwards no replica map of the OLD ring may be in use: Pick must
+// offer the owner of the routing key's token in the NEW ring first and only current hosts. Routing keys are enumerated until
+// every token range of the old and of the new ring has been hit.
+func policyStale(o *hlib.Out) {
+	tokensFor := [][]string{
+		{"-6917529027641081856", "-2305843009213693952", "2305843009213693952", "6917529027641081856", "0"},
+		{"\x30", "\x70", "\xa0", "\xe0", "\x90"},
+		{"21267647932558653966460912964485513216", "63802943797675961899382738893456539648", "106338239662793269832304564822427566080", "148873535527910577765226390751398592512", "85070591730234615865843651857942052864"},
+	}
+	variants := []struct {
+		name        string
+		class       string
+		opts        map[string]interface{}
+		failLookup  bool   // afterwards getKeyspaceMetadata fails
+		laterClass  string // otherwise: the keyspace's class afterwards (getStrategy answers nil)
+		remove, add bool
+	}{
+		{"lookup-fails/remove", "SimpleStrategy", map[string]interface{}{"replication_factor": "2"}, true, "", true, false},
+		{"lookup-fails/add", "NetworkTopologyStrategy", map[string]interface{}{"dc1": "2", "dc2": 1}, true, "", false, true},
+		{"strategy-nil/remove", "NetworkTopologyStrategy", map[string]interface{}{"dc1": 3}, false, "org.apache.cassandra.locator.LocalStrategy", true, false},
+		{"strategy-nil/add+remove", "SimpleStrategy", map[string]interface{}{"replication_factor": 3}, false, "EverywhereStrategy", true, true},
+		{"bad-factor/remove", "SimpleStrategy", map[string]interface{}{"replication_factor": 2}, false, "SimpleStrategy!bad", true, false},
+	}
+	for part := 0; part < 3; part++ {
+		for vi, v := range variants {
+			s := &scenario{Part: part, PName: partNames[part][0], RunMap: true}
+			for i := 0; i < 4; i++ {
+				s.Hosts = append(s.Hosts, hostD{DC: []string{"dc1", "dc2"}[i%2], Rack: fmt.Sprintf("r%d", 1+i/2), Addr: 0x0a000001 + uint32(i), Tokens: []string{tokensFor[part][i]}})
+			}
+			mk := func(i int, h hostD) *gocql.HostInfo {
+				a := h.Addr
+				return gocql.VerifC10NewHost(gocql.VerifC10Host{ID: fmt.Sprintf("h%d", i), DC: h.DC, Rack: h.Rack,
+					Addr: net.IPv4(byte(a>>24), byte(a>>16), byte(a>>8), byte(a)), Tokens: h.Tokens})
+			}
+			opts := map[string]interface{}{"class": v.class}
+			for k, x := range v.opts {
+				opts[k] = x
+			}
+			pol := gocql.TokenAwareHostPolicy(gocql.RoundRobinHostPolicy())
+			gocql.VerifC10InitPolicy(pol, &gocql.KeyspaceMetadata{Name: "ks", StrategyClass: v.class, StrategyOptions: opts}, "ks")
+			pol.SetPartitioner(s.PName)
+			hosts := make([]*gocql.HostInfo, len(s.Hosts))
+			for i, h := range s.Hosts {
+				hosts[i] = mk(i, h)
+				pol.AddHost(hosts[i])
+			}
+			pol.KeyspaceChanged(gocql.KeyspaceUpdateEvent{Keyspace: "ks", Change: "CREATED"})
+			oldRing := sortedRing(s)
+			// step 1 sanity: the replica map is in use (some key is offered more than the owner first)
+			// step 2: the keyspace becomes unusable
+			after := &scenario{Part: part, PName: s.PName, RunMap: true}
+			haveKs := !v.failLookup
+			if v.failLookup {
+				gocql.VerifC10InitPolicy(pol, nil, "ks")
+				after.Class = v.class
+				opts2 := map[string]interface{}{}
+				for k, x := range opts {
+					opts2[k] = x
+				}
+				setOpts(after, opts2)
+			} else {
+				opts2 := map[string]interface{}{"class": v.laterClass}
+				if v.laterClass == "SimpleStrategy!bad" {
+					opts2 = map[string]interface{}{"class": "SimpleStrategy", "replication_factor": "two"}
+					after.Class = "SimpleStrategy"
+				} else {
+					after.Class = v.laterClass
+				}
+				setOpts(after, opts2)
+				gocql.VerifC10InitPolicy(pol, &gocql.KeyspaceMetadata{Name: "ks", StrategyClass: after.Class, StrategyOptions: after.opts()}, "ks")
+			}
+			// step 3: the ring changes
+			cur := append([]hostD{}, s.Hosts...)
+			curH := append([]*gocql.HostInfo{}, hosts...)
+			if v.add {
+				nh := hostD{DC: "dc1", Rack: "r1", Addr: 0x0a000009, Tokens: []string{tokensFor[part][4]}}
+				h := mk(4, nh)
+				pol.AddHost(h)
+				cur, curH = append(cur, nh), append(curH, h)
+			}
+			if v.remove {
+				k := (vi + part) % 4
+				pol.RemoveHost(curH[k])
+				cur = append(cur[:k:k], cur[k+1:]...)
+				curH = append(curH[:k:k], curH[k+1:]...)
+			}
+			if vi%2 == 0 {
+				pol.KeyspaceChanged(gocql.KeyspaceUpdateEvent{Keyspace: "ks", Change: "UPDATED"})
+			}
+			after.Hosts = cur
+			index := map[*gocql.HostInfo]int{}
+			for i, h := range curH {
+				index[h] = i
+			}
+			newRing := sortedRing(after)
+			less := lessFor(part)
+			// step 4: routing keys covering every range of both rings
+			hitOld, hitNew := map[int]bool{}, map[int]bool{}
+			var picks []string
+			bad := ""
+			for n := 0; n < 400 && (len(hitOld) < len(oldRing) || len(hitNew) < len(newRing) || len(picks) < 6); n++ {
+				key := []byte{byte(n * 37), byte(n), byte(n >> 3), byte(7 * n)}
+				if part == 1 {
+					key = []byte{byte(n * 41)}
+				}
+				tok, _ := gocql.VerifC10HashToken(s.PName, key)
+				oOld, oNew := ringWalk(oldRing, less, tok)[0], ringWalk(newRing, less, tok)[0]
+				if hitOld[oOld] && hitNew[oNew] && len(picks) >= 6 {
+					continue
+				}
+				hitOld[oOld], hitNew[oNew] = true, true
+				it := pol.Pick(gocql.VerifC10Query("ks", key))
+				var seq []int
+				for h := it(); h != nil && len(seq) <= 2*len(curH)+2; h = it() {
+					i, ok := index[h.Info()]
+					if !ok {
+						i = -2
+					}
+					seq = append(seq, i)
+				}
+				picks = append(picks, "("+cs(tok)+", "+ints(seq)+")")
+				if bad == "" {
+					for _, i := range seq {
+						if i < 0 {
+							bad = fmt.Sprintf("%s: routing key %x (token %q): Pick offered a host that is no longer in the ring: %v", v.name, key, tok, seq)
+						}
+					}
+					if bad == "" && (len(seq) == 0 || seq[0] != oNew) {
+						bad = fmt.Sprintf("%s: routing key %x (token %q): no usable strategy, the owner in the current ring is host %d, Pick offered %v", v.name, key, tok, oNew, seq)
+					}
+				}
+			}
+			hostsT := make([]string, len(cur))
+			for i, h := range cur {
+				hostsT[i] = fmt.Sprintf("(%d, mkInfo %s %s %d, [%s])", i, cs(h.DC), cs(h.Rack), h.Addr, cs(h.Tokens[0]))
+			}
+			idx := -1
+			if !o.Search {
+				idx = o.Case("policy-stale", true, fmt.Sprintf("CPick %s %s %s %s %s %s", partCtor[part], hlib.List(hostsT), cs(after.Class), optsTerm(after), hlib.Bool(haveKs), hlib.List(picks)))
+			} else {
+				o.Count("policy-stale")
+			}
+			if bad != "" {
+				violate(o, idx, "policy-no-stale-replicas", "", bad, after.json())
+			}
+		}
+	}
+}
+
+func setOpts(s *scenario, opts map[string]interface{}) {
+	s.OptKeys, s.OptVals = nil, nil
+	for k := range opts {
+		s.OptKeys = append(s.OptKeys, k)
+	}
+	sort.Strings(s.OptKeys)
+	for _, k := range s.OptKeys {
+		s.OptVals = append(s.OptVals, opts[k])
+	}
+}
+
 // ---- strategy parsing and token parsing cases ---------------------------------------------------
 
 func strategyCases(o *hlib.Out, n int) {
@@ -1211,6 +1373,7 @@ func main() {
 	if o.Search {
 		// failing-input search: monitors only, more and larger rings, vnode-heavy and DC-heavy
 		witnesses(o)
+		policyStale(o)
 		for i := 0; i < 4000*o.Scale/5; i++ {
 			runScenario(o, "search", genScenario(r, genOpts{maxHosts: 16, maxTokens: 8, maxDCs: 4, maxRacks: 4}))
 		}
@@ -1226,6 +1389,7 @@ func main() {
 	}
 
 	witnesses(o)
+	policyStale(o)
 	strategyCases(o, 120*o.Scale)
 	tokenCases(o, 80*o.Scale)
 	// structured: inside the property's quantifier (plus keyspace DCs outside the ring)
